@@ -46,12 +46,12 @@ VERSIONS = {"2020-12": "DRAFT_2020_12", "2019-09": "DRAFT_2019_09", "draft-07": 
 
 @st.composite
 def schema_programs(draw, cfg=None, clash_rate=0.08):
-    cfg = dict({"max_depth": 3, "fall_back": False, "lit_in_union": False, "unsup": False, "methods": True}, **(cfg or {}))
+    cfg = dict({"max_depth": 3, "fall_back": False, "lit_in_union": False, "unsup": False, "methods": True, "generics": True}, **(cfg or {}))
     g = gen.TypeGen(draw, cfg)
     depth = draw(st.integers(1, cfg["max_depth"]))
     root = g.type(depth)
     # bias to sharing: wrap the root with a second use of one of its named types
-    named = [("cls", i) for i, c in enumerate(g.prog["classes"]) if c is not None and i not in g.flattened] + \
+    named = [("cls", i) for i, c in enumerate(g.prog["classes"]) if c is not None and i not in g.flattened and not c.get("params")] + \
             [("enum", i) for i in range(len(g.prog["enums"]))] + [("newtype", i) for i in range(len(g.prog["newtypes"]))]
     if named and chance(draw, 0.6):
         kind, i = pick(draw, named)
@@ -71,6 +71,8 @@ def schema_programs(draw, cfg=None, clash_rate=0.08):
     names_used = set()
     for i, cd in enumerate(prog["classes"]):
         r = draw(st.integers(0, 99))
+        if cd.get("params"):
+            continue  # specialisations of a generic class have no default name (and one given name would clash)
         if r < 15:
             cd["type_name"] = repr(f"Named{i}")
         elif r < 22 and i not in rec and cd["flavor"] != "typeddict":
@@ -82,7 +84,7 @@ def schema_programs(draw, cfg=None, clash_rate=0.08):
         elif r < 25:
             nt["type_name"] = "None"
     clash = None
-    dcs = [i for i, cd in enumerate(prog["classes"]) if cd["flavor"] == "dataclass" and i not in g.flattened]
+    dcs = [i for i, cd in enumerate(prog["classes"]) if cd["flavor"] == "dataclass" and i not in g.flattened and not cd.get("params")]
     reach = {j for k_, j in tdcase.reachable_named(prog, prog["root"]) if k_ == "cls"}
     dcs = [i for i in dcs if i in reach]
     if len(dcs) >= 2 and chance(draw, clash_rate):
@@ -169,6 +171,8 @@ def type_name_of(prog, ref):
     kind, i = ref
     if kind == "cls":
         cd = prog["classes"][i]
+        if cd.get("params"):
+            return None
         tn = cd.get("type_name")
         if tn == "None":
             return None
